@@ -45,6 +45,12 @@ pub fn pool() -> Vec<MV> {
         s("b"),
         s("é"),
         s("e\u{301}"),
+        // texts that differ only in how a line break is spelled: different strings
+        s("a\nb"),
+        s("a\r\nb"),
+        s("a\rb"),
+        s("a\r\n"),
+        s("a\n"),
         s("z"),
         s("😀"),
         s("\u{ffff}"),
